@@ -23,7 +23,7 @@ KEY_CVODE_LOW = "C12:cvode-low-order-global-error"
 
 # ----------------------------------------------------------------------------------------- T-gen
 
-GEN_STATE = {"step_ok": True, "tableau_ok": True, "restart_ok": True, "transport_ok": True, "bind_ok": True, "last_good_source": None}
+GEN_STATE = {"step_ok": True, "tableau_ok": True, "restart_ok": True, "transport_ok": True, "bind_ok": True, "clamp_ok": True, "last_good_source": None}
 KEY_RESTART_STATE = "C12:cvode-restart-state-from-failed-attempt"
 
 
@@ -36,7 +36,8 @@ def gen():
     for fname, fn, flag in (("Gen_C12_Tableau.v", c12_gen.gen_tableau, "tableau_ok"), ("Gen_C12_Step.v", c12_gen.gen_step, "step_ok"),
                             ("Gen_C12_Restart.v", c12_gen.gen_restart, "restart_ok"),
                             ("Gen_C12_Transport.v", c12_gen.gen_transport_time, "transport_ok"),
-                            ("Gen_C12_Bind.v", c12_gen.gen_bind, "bind_ok")):
+                            ("Gen_C12_Bind.v", c12_gen.gen_bind, "bind_ok"),
+                            ("Gen_C12_Clamp.v", c12_gen.gen_clamp, "clamp_ok")):
         p = os.path.join(gdir, fname)
         try:
             vlib.write_if_changed(p, fn(vlib.REPO))
@@ -115,7 +116,7 @@ def shipped_scenario(rng, kind=None):
 
 def scenario(rng, fam=None):
     """one rate-law instance: family, parameters, tolerance, total time"""
-    fam = fam or rng.choice(["zero", "first", "m0dep", "rev", "chain", "ramp", "zero_exhaust", "shipped", "m0dep"])
+    fam = fam or rng.choice(["zero", "first", "m0dep", "rev", "chain", "ramp", "zero_exhaust", "shipped", "m0dep", "exh_first"])
     if fam == "shipped":
         return shipped_scenario(rng)
     tol = rng.choice(["1e-6", "1e-7", "1e-8", "1e-8", "1e-9", "1e-10", "1e-11"])
@@ -128,6 +129,10 @@ def scenario(rng, fam=None):
     elif fam == "zero_exhaust":
         frac = rng.uniform(1.3, 3.0)                      # exhausted before T
         sc.update(m0=m0, r=dec(float(m0) * frac / T))
+    elif fam == "exh_first":
+        # the zero-order reactant runs out at 0.35..0.8 T; the first-order one forces error-controlled sub-steps, so the
+        # exhaustion happens in a LATER Runge-Kutta sub-step (clamp of calc_final_kinetic_reaction against the sub-step amount)
+        sc.update(m0=m0, r=dec(float(m0) / (T * rng.uniform(0.35, 0.8))), b0=dec(float(m0) * rng.uniform(0.5, 2.0)), k=dec(rng.choice([2.0, 5.0, 9.0]) * rng.uniform(0.6, 1.0) / T))
     elif fam == "first":
         z = rng.choice([0.05, 0.3, 1.0, 3.0, 8.0]) * rng.uniform(0.5, 1.0)
         sc.update(m0=m0, k=dec(z / T))
@@ -172,6 +177,8 @@ def reactants(sc):
         return [("Aa", "zero", sc["m0"], [sc["r"]])]
     if f == "first":
         return [("Aa", "first", sc["m0"], [sc["k"]])]
+    if f == "exh_first":
+        return [("Aa", "zero", sc["m0"], [sc["r"]]), ("Bb", "first", sc["b0"], [sc["k"]])]
     if f == "m0dep":
         return [("Aa", "m0dep", sc["m"], [sc["k0"], sc["k1"]])]      # third entry = amount the calculation starts from
     if f == "ramp":
@@ -191,6 +198,8 @@ def closed_forms_coq(sc):
         return {"Aa": "(cf_zero %s %s)" % (q(sc["m0"]), q(sc["r"]))}
     if f == "first":
         return {"Aa": "(cf_first %s %s)" % (q(sc["m0"]), q(sc["k"]))}
+    if f == "exh_first":
+        return {"Aa": "(cf_zero %s %s)" % (q(sc["m0"]), q(sc["r"])), "Bb": "(cf_first %s %s)" % (q(sc["b0"]), q(sc["k"]))}
     if f == "m0dep":
         return {"Aa": "(cf_m0dep %s %s %s %s)" % (q(sc["m0"]), q(sc["m"]), q(sc["k0"]), q(sc["k1"]))}
     if f == "ramp":
@@ -211,6 +220,8 @@ def closed_forms_py(sc, t):
         return {"Aa": g(sc["m0"]) - g(sc["r"]) * t}
     if f == "first":
         return {"Aa": g(sc["m0"]) * math.exp(-g(sc["k"]) * t)}
+    if f == "exh_first":
+        return {"Aa": g(sc["m0"]) - g(sc["r"]) * t, "Bb": g(sc["b0"]) * math.exp(-g(sc["k"]) * t)}
     if f == "m0dep":
         c = g(sc["k0"]) * g(sc["m0"]) / g(sc["k1"])
         return {"Aa": (g(sc["m"]) + c) * math.exp(-g(sc["k1"]) * t) - c}
@@ -226,8 +237,8 @@ def closed_forms_py(sc, t):
         return {"Aa": a0 * math.exp(-k1 * t), "Bb": (b0 - gg) * math.exp(-k2 * t) + gg * math.exp(-k1 * t)}
 
 
-def exhaustion_time(sc):
-    if sc["family"] in ("zero", "zero_exhaust"):
+def exhaustion_time(sc, name="Aa"):
+    if sc["family"] in ("zero", "zero_exhaust") or (sc["family"] == "exh_first" and name == "Aa"):
         return float(fr(sc["m0"]) / fr(sc["r"]))
     return None
 
@@ -422,7 +433,7 @@ def analyse(sc, vs, results, checks, info):
     shipped = sc["family"] == "shipped"
     cfs = None if shipped else closed_forms_coq(sc)
     names = [r[0] for r in reactants(sc)]
-    texh = None if shipped else exhaustion_time(sc)
+    texh_of = (lambda n: None) if shipped else (lambda n: exhaustion_time(sc, n))
     reached = {}     # time (float) -> list of (variant name, {reactant: value})
     for v in vs:
         r = results.get(v["id"])
@@ -469,6 +480,7 @@ def analyse(sc, vs, results, checks, info):
                 if shipped:
                     continue
                 # (b) closed form within 100 tol (verified checker)
+                texh = texh_of(n)
                 if texh is not None and t >= texh * (1 - 1e-9):
                     if t > texh * (1 + 1e-9):
                         checks.append(("check_agree %s 0 %s" % (vlib.coq_Q(m), bound),
@@ -941,6 +953,15 @@ def continuation_corpus(ctx):
                          "only the fixed continuation corpus (budgets %s excluded from the verdict by the known finding)" % (CONT_BAD_WITH_Y,))
 
 
+EXHAUST_CORPUS = [
+    # zero-order reactant running out at 0.55 T; -step_divide / a stiff companion / > 0.1 mol per step split the time step, so the
+    # reactant runs out in a later Runge-Kutta sub-step
+    {"family": "zero_exhaust", "tol": "1e-8", "m0": "0.01", "r": "1.818e-05", "T": 1000, "incs": ["300", "300", "400"], "nequal": 4},
+    {"family": "exh_first", "tol": "1e-9", "m0": "0.01", "r": "1.818e-05", "b0": "0.02", "k": "0.006", "T": 1000, "incs": ["300", "300", "400"], "nequal": 4},
+    {"family": "zero_exhaust", "tol": "1e-8", "m0": "0.3", "r": "5.455e-04", "T": 1000, "incs": ["300", "300", "400"], "nequal": 4},
+]
+
+
 REUSE_SC = {"family": "m0dep", "tol": "1e-9", "m0": "0.02", "m": "0.016", "k0": "2e-5", "k1": "1e-3", "T": 300, "incs": ["100", "100", "100"], "nequal": 3}
 
 
@@ -1046,9 +1067,10 @@ def run(ctx):
     run_columns(ctx, 0, cases=[dict(c) for c in COLUMN_CORPUS])
     run_columns(ctx, ctx.n(18, 90))
     vlib.log("[C12] columns %.1fs" % (time.time() - t0)); t0 = time.time()
-    n = ctx.n(16, 180)
-    fams = ["zero", "first", "rev", "chain", "ramp", "zero_exhaust", "shipped", "shipped", "m0dep", "m0dep"]
+    n = ctx.n(17, 180)
+    fams = ["zero", "first", "rev", "chain", "ramp", "zero_exhaust", "shipped", "shipped", "m0dep", "m0dep", "exh_first"]
     scs = [scenario(ctx.rng, fams[i] if i < len(fams) else None) for i in range(n)]
+    run_scenarios(ctx, [dict(c) for c in EXHAUST_CORPUS], full=True, label="exh")
     if not ok:
         # broken obligation: search harder around the integrator: all variants for every scenario, plus scenarios with the
         # tightest tolerance and long integrations (a mis-scaled error test or a wrong weight shows there first)
